@@ -711,4 +711,122 @@ example : hasTy (.struct [(['a'], .int 1), (['o'], .some_ (.str ['x'])), (['l'],
   ∧ ordTy (.struct [(['a'], .int), (['o'], .option .str), (['l'], .list .bool)]) = true := by decide
 
 
+/-! ### Derived `<` is transitive -/
+
+
+mutual
+  /-- Derived `<` is transitive at every depth on values of one orderable type (with `cmpV_swap` and
+  `cmpV_eq_imp_eq`: a strict total order, which is what `sorted`, `min`/`max` and ordered containers need). -/
+  theorem cmpV_lt_trans (a b c : Val) (t : Ty) (ha : hasTy a t = true) (hb : hasTy b t = true) (hc : hasTy c t = true)
+      (ho : ordTy t = true) (h1 : cmpV a b = .lt) (h2 : cmpV b c = .lt) : cmpV a c = .lt := by
+    match a, t with
+    | .int x, .int =>
+      cases b <;> simp [hasTy] at hb; cases c <;> simp [hasTy] at hc
+      simp only [cmpV] at *; exact cmpInt_lt_trans _ _ _ h1 h2
+    | .bool x, .bool =>
+      cases b <;> simp [hasTy] at hb; cases c <;> simp [hasTy] at hc
+      simp only [cmpV] at *; exact cmpInt_lt_trans _ _ _ h1 h2
+    | .str x, .str =>
+      cases b <;> simp [hasTy] at hb; cases c <;> simp [hasTy] at hc
+      simp only [cmpV] at *; exact cmpStr_lt_trans _ _ _ h1 h2
+    | .float _, .float => simp [ordTy] at ho
+    | .none_, .option u =>
+      cases b <;> simp [hasTy] at hb <;> simp [cmpV] at h1
+      cases c <;> simp [hasTy] at hc <;> simp [cmpV] at h2 ⊢
+    | .some_ x, .option u =>
+      cases b <;> simp [hasTy] at hb <;> simp [cmpV] at h1
+      rename_i y
+      cases c <;> simp [hasTy] at hc <;> simp [cmpV] at h2 ⊢
+      rename_i z
+      simp only [hasTy] at ha; simp only [ordTy] at ho
+      exact cmpV_lt_trans x y z u ha hb hc ho h1 h2
+    | .list xs, .list u =>
+      cases b <;> simp [hasTy] at hb
+      cases c <;> simp [hasTy] at hc
+      simp only [hasTy] at ha; simp only [ordTy] at ho; simp only [cmpV] at *
+      exact cmpList_lt_trans _ _ _ u ha hb hc ho h1 h2
+    | .dict _, .dict u => simp [ordTy] at ho
+    | .struct xs, .struct fts =>
+      cases b <;> simp [hasTy] at hb
+      cases c <;> simp [hasTy] at hc
+      simp only [hasTy] at ha; simp only [ordTy] at ho; simp only [cmpV] at *
+      exact cmpFields_lt_trans _ _ _ fts ha hb hc ho h1 h2
+    | .int _, .bool | .int _, .str | .int _, .float | .int _, .option _ | .int _, .list _ | .int _, .dict _ | .int _, .struct _ => simp [hasTy] at ha
+    | .bool _, .int | .bool _, .str | .bool _, .float | .bool _, .option _ | .bool _, .list _ | .bool _, .dict _ | .bool _, .struct _ => simp [hasTy] at ha
+    | .str _, .int | .str _, .bool | .str _, .float | .str _, .option _ | .str _, .list _ | .str _, .dict _ | .str _, .struct _ => simp [hasTy] at ha
+    | .float _, .int | .float _, .bool | .float _, .str | .float _, .option _ | .float _, .list _ | .float _, .dict _ | .float _, .struct _ => simp [hasTy] at ha
+    | .none_, .int | .none_, .bool | .none_, .str | .none_, .float | .none_, .list _ | .none_, .dict _ | .none_, .struct _ => simp [hasTy] at ha
+    | .some_ _, .int | .some_ _, .bool | .some_ _, .str | .some_ _, .float | .some_ _, .list _ | .some_ _, .dict _ | .some_ _, .struct _ => simp [hasTy] at ha
+    | .list _, .int | .list _, .bool | .list _, .str | .list _, .float | .list _, .option _ | .list _, .dict _ | .list _, .struct _ => simp [hasTy] at ha
+    | .dict _, .int | .dict _, .bool | .dict _, .str | .dict _, .float | .dict _, .option _ | .dict _, .list _ | .dict _, .struct _ => simp [hasTy] at ha
+    | .struct _, .int | .struct _, .bool | .struct _, .str | .struct _, .float | .struct _, .option _ | .struct _, .list _ | .struct _, .dict _ => simp [hasTy] at ha
+  theorem cmpList_lt_trans (a b c : List Val) (t : Ty) (ha : allHaveTy a t = true) (hb : allHaveTy b t = true)
+      (hc : allHaveTy c t = true) (ho : ordTy t = true) (h1 : cmpList a b = .lt) (h2 : cmpList b c = .lt) :
+      cmpList a c = .lt := by
+    match a, b, c with
+    | _, [], [] => simp [cmpList] at h2
+    | [], [], _ :: _ => simp [cmpList] at h1
+    | _ :: _, [], _ => simp [cmpList] at h1
+    | _, _ :: _, [] => simp [cmpList] at h2
+    | [], _ :: _, _ :: _ => simp [cmpList]
+    | x :: xs, y :: ys, z :: zs =>
+      simp only [allHaveTy, Bool.and_eq_true] at ha hb hc
+      simp only [cmpList] at h1 h2 ⊢
+      cases e1 : cmpV x y with
+      | gt => simp [e1] at h1
+      | eq =>
+        have := cmpV_eq_imp_eq x y t ha.1 hb.1 ho e1
+        subst this
+        simp only [e1] at h1
+        cases e2 : cmpV x z with
+        | gt => simp [e2] at h2
+        | lt => rfl
+        | eq => simp only [e2] at h2 ⊢; exact cmpList_lt_trans xs ys zs t ha.2 hb.2 hc.2 ho h1 h2
+      | lt =>
+        cases e2 : cmpV y z with
+        | gt => simp [e2] at h2
+        | lt => rw [cmpV_lt_trans x y z t ha.1 hb.1 hc.1 ho e1 e2]
+        | eq =>
+          have := cmpV_eq_imp_eq y z t hb.1 hc.1 ho e2
+          subst this
+          rw [e1]
+  theorem cmpFields_lt_trans (a b c : List (List Char × Val)) (fts : List (List Char × Ty))
+      (ha : fieldsHaveTy a fts = true) (hb : fieldsHaveTy b fts = true) (hc : fieldsHaveTy c fts = true)
+      (ho : ordFieldTys fts = true) (h1 : cmpFields a b = .lt) (h2 : cmpFields b c = .lt) :
+      cmpFields a c = .lt := by
+    match a, b, c, fts with
+    | _, [], [], _ => simp [cmpFields] at h2
+    | [], [], _ :: _, _ => simp [cmpFields] at h1
+    | _ :: _, [], _, _ => simp [cmpFields] at h1
+    | _, _ :: _, [], _ => simp [cmpFields] at h2
+    | [], _ :: _, _ :: _, _ => simp [cmpFields]
+    | _ :: _, _ :: _, _ :: _, [] => simp [fieldsHaveTy] at ha
+    | (k, x) :: xs, (l, y) :: ys, (m, z) :: zs, (g, t) :: r =>
+      simp only [fieldsHaveTy, Bool.and_eq_true, beq_iff_eq] at ha hb hc
+      simp only [ordFieldTys, Bool.and_eq_true] at ho
+      simp only [cmpFields] at h1 h2 ⊢
+      cases e1 : cmpV x y with
+      | gt => simp [e1] at h1
+      | eq =>
+        have := cmpV_eq_imp_eq x y t ha.1.2 hb.1.2 ho.1 e1
+        subst this
+        simp only [e1] at h1
+        cases e2 : cmpV x z with
+        | gt => simp [e2] at h2
+        | lt => rfl
+        | eq => simp only [e2] at h2 ⊢; exact cmpFields_lt_trans xs ys zs r ha.2 hb.2 hc.2 ho.2 h1 h2
+      | lt =>
+        cases e2 : cmpV y z with
+        | gt => simp [e2] at h2
+        | lt => rw [cmpV_lt_trans x y z t ha.1.2 hb.1.2 hc.1.2 ho.1 e1 e2]
+        | eq =>
+          have := cmpV_eq_imp_eq y z t hb.1.2 hc.1.2 ho.1 e2
+          subst this
+          rw [e1]
+end
+
+/-- Non-vacuity: three nested values of one orderable type in strictly increasing order. -/
+example : cmpV (.struct [(['a'], .int 1), (['o'], .none_)]) (.struct [(['a'], .int 1), (['o'], .some_ (.str ['x']))]) = .lt
+  ∧ cmpV (.struct [(['a'], .int 1), (['o'], .some_ (.str ['x']))]) (.struct [(['a'], .int 2), (['o'], .none_)]) = .lt := by decide
+
 end Incan.Derive
